@@ -182,6 +182,13 @@ def run_config(pid, hname, cfg, tier, seed, opts):
                 conly = [(n, d) for n, st, d in CW.obs if st == 'fail-concrete-only']
                 if conly:
                     res['candidates'].append({'ob': conly[0][0], 'values': vals, 'path': res['paths']})
+                # an obligation that fails on the real code at this sampled point although the symbolic run discharged it (an effect
+                # the model does not carry, e.g. numpy aliasing of a non-copying asarray): a candidate like any other, replayed below
+                cfail = [n for n, st, d in CW.obs if st == 'fail']
+                discharged_sym = {n for n, st, d in W.obs if st.startswith('unsat')}
+                for n in cfail[:3]:
+                    if n in discharged_sym:
+                        res['candidates'].append({'ob': n, 'values': vals, 'path': res['paths'], 'note': 'fails on the real code at a sampled point of a path on which the symbolic run discharged it'})
                 if exc is not None and exc != 'assumption' and _raised_in_lentil(exc):
                     # the real code raises at a point of a path that ended normally in the symbolic run: replayed like any candidate
                     # (an exception raised by the harness's own reference arithmetic, e.g. math.exp overflow, is not one)
